@@ -9,7 +9,7 @@ import copy
 from simkit import harness as H
 from simkit import tls as T
 from simkit import world as W
-from simkit.runner import Result, rng_for
+from simkit.runner import Result, rng_for, stable_hash
 
 ID = "C19"
 ENGINE = "simnet"
@@ -18,7 +18,7 @@ TECHNIQUE = "deterministic network simulation on a virtual clock: Timeout grid x
 LEVEL_TEXT = (
     "The (total, connect, read) grid over {unset, None, 0.5, 2, 10} plus invalid values x connect durations {0, 0.3, 1, 5, 20} x response delays x placement (pool, request, float "
     "shorthand) x fresh/reused connection x http/https x sequences of two requests sharing a pool Timeout; every wait happens on the simulated clock, the socket records the timeout "
-    "handed to it in each phase (connect, send on fresh and reused connections, response wait) and when it expired. Sampling of the full product."
+    "handed to it in each phase (connect, send on fresh and reused connections, response wait) and when it expired; https through a CONNECT tunnel is one of the schemes. Contention stratum (simsched): one thread holds the only connection of a blocking pool for a while, another asks with a total -- the wait for the pooled connection must not be charged to its budget (every single pre-emption of sampled scenarios plus seeded schedules). Sampling of the full product."
 )
 LEVEL_NOTE = "trusted: the arithmetic reference in this module; the claim is about the value handed to the socket and the expiry instant on the simulated clock, not about the kernel honouring it"
 N = {"quick": 40000, "thorough": 600000}
@@ -26,8 +26,8 @@ BUDGET = {"quick": 45, "thorough": 420}
 RULE = "index k -> (Timeout spec, placement, scheme, connect duration, response delay, second request with its own delays and optional override). Non-trivial = some phase took virtual time; distinct = distinct scenario tuple."
 ASSUMPTIONS = ["sends take no virtual time", "the default socket timeout (socket.getdefaulttimeout()) is None in the harness process"]
 REQUIRED_PROBES = {
-    "quick": ["connect_timeout_fired", "read_timeout_fired", "zero_budget_no_wait", "invalid_rejected", "request_override", "reused_connection", "https", "total_minus_elapsed", "second_request_fresh_clock", "send_on_reused_under_own_timeout", "tunnel"],
-    "thorough": ["connect_timeout_fired", "read_timeout_fired", "zero_budget_no_wait", "invalid_rejected", "request_override", "reused_connection", "https", "total_minus_elapsed", "second_request_fresh_clock", "send_on_reused_under_own_timeout", "tunnel"],
+    "quick": ["connect_timeout_fired", "read_timeout_fired", "zero_budget_no_wait", "invalid_rejected", "request_override", "reused_connection", "https", "total_minus_elapsed", "second_request_fresh_clock", "send_on_reused_under_own_timeout", "tunnel", "waited_for_pooled_connection", "pool_wait_not_charged"],
+    "thorough": ["connect_timeout_fired", "read_timeout_fired", "zero_budget_no_wait", "invalid_rejected", "request_override", "reused_connection", "https", "total_minus_elapsed", "second_request_fresh_clock", "send_on_reused_under_own_timeout", "tunnel", "waited_for_pooled_connection", "pool_wait_not_charged"],
 }
 
 VALS = ["unset", None, 0.5, 2, 10]
@@ -69,8 +69,143 @@ def gen(rng):
     return sc
 
 
+def warmup():
+    """The contention stratum pre-empts at every line of the pool code."""
+    import urllib3.connection
+    import urllib3.connectionpool
+    import urllib3.response
+
+    from simkit import sched as S
+
+    w = W.World({})
+    w.default_listener = H.origin_factory()
+    with w:
+        p = H.u3().HTTPConnectionPool("h.test", 80, maxsize=1, block=True, retries=False, timeout=3.0)
+        p.request("GET", "/warm").data
+        p.close()
+    S.instrument([urllib3.connectionpool, urllib3.response, urllib3.connection])
+
+
+def gen_contention(rng):
+    """block=True, maxsize=1: one thread holds the only connection for `hold` virtual seconds while another asks for it with a
+    Timeout that has a total.  Waiting for a pooled connection is not connecting: it is not charged to the request's budget."""
+    spec = {"total": rng.choice([2, 4, 10]), "read": rng.choice(["unset", 0.5, 3, None])}
+    if spec["read"] == "unset":
+        del spec["read"]
+    if rng.random() < 0.5:
+        spec["connect"] = rng.choice([0.5, 2, 10])
+    c = rng.random()
+    if c < 0.5:
+        sched = {"strategy": "uniform", "p": rng.choice([0.02, 0.1, 0.3]), "seed": rng.randrange(1 << 30)}
+    else:
+        sched = {"strategy": "pct", "d": rng.choice([1, 2]), "steps": rng.choice([100, 300]), "seed": rng.randrange(1 << 30)}
+    return {"property": ID, "kind": "contention", "spec": spec, "placement": rng.choice(["request", "pool"]), "hold": rng.choice([0.5, 1.5, 5.0, 20.0]), "w": rng.choice([0, 0.4, 6]), "schedule": sched}
+
+
 def cases(seed, k, tier):
-    yield gen(rng_for(seed, ID, k))
+    rng = rng_for(seed, ID, k)
+    if k % 401 == 5:
+        base = gen_contention(rng)
+        base["schedule"] = {"decisions": []}
+        yield base
+        steps_total = run(base).steps
+        cap = 100 if tier == "quick" else 400
+        steps = list(range(1, steps_total + 1))
+        if len(steps) > cap:
+            steps = sorted(rng.sample(steps, cap))
+        for st in steps:
+            sc = copy.deepcopy(base)
+            sc["schedule"] = {"decisions": [[st, "T1"]]}
+            yield sc
+        return
+    if k % 41 == 6:
+        yield gen_contention(rng)
+        return
+    yield gen(rng)
+
+
+def run_contention(sc) -> Result:
+    from urllib3.exceptions import ReadTimeoutError
+
+    from simkit import sched as S
+
+    res = Result()
+    urllib3 = H.u3()
+    w = W.World({})
+    w.default_listener = H.origin_factory()
+    w.responder = lambda world, peer, req: {"k": "resp", "status": 200, "body": "ok", "delay": sc["hold"] if req.target == "/slow" else sc["w"]}
+    spec = sc["spec"]
+    with H.RunEnv(), H.quiet_warnings(), w:
+        sched = S.Scheduler(w, sc["schedule"])
+        kw = {"timeout": mk(spec)} if sc["placement"] == "pool" else {}
+        pool = urllib3.HTTPConnectionPool("h.test", 80, maxsize=1, block=True, retries=False, **kw)
+        from urllib3.util.timeout import Timeout
+
+        def t0():
+            try:
+                return ("ok", pool.urlopen("GET", "/slow", timeout=Timeout(read=100.0), pool_timeout=200.0).status)
+            except (S.SimDeadlock, S.TaskAbort, W.StepLimit, W.SimHang):
+                raise
+            except Exception as e:
+                H.strip_tb(e)
+                return ("exc", e)
+
+        def t1():
+            rkw = {"timeout": mk(spec)} if sc["placement"] == "request" else {}
+            try:
+                return ("ok", pool.urlopen("GET", "/fast", pool_timeout=200.0, **rkw).status)
+            except (S.SimDeadlock, S.TaskAbort, W.StepLimit, W.SimHang):
+                raise
+            except Exception as e:
+                H.strip_tb(e)
+                return ("exc", e)
+
+        sched.spawn("T0", t0)
+        sched.spawn("T1", t1)
+        sched.run()
+        res.probes["contention_runs"] += 1
+        if sched.verdict == "deadlock":
+            res.bad("deadlock", "the two requests blocked for ever")
+        ct, rt = reference(spec, 0)  # dialling takes no time here; time spent waiting for the pooled connection is not charged
+        # the timeout in force at the first receive that follows T1's request
+        to_now, sent_at, obs, sid1 = {}, None, None, None
+        for e in w.events:
+            if e[1] == "settimeout":
+                to_now[e[2]] = e[3]
+            elif e[1] == "request" and isinstance(e[3], tuple) and len(e[3]) > 3 and e[3][3] == "/fast":
+                sent_at, sid1 = e[0], e[3][1]
+            elif sent_at is not None and obs is None and e[2] == sid1 and e[1] in ("recv", "recv_timeout", "recv_block", "recv_eof"):
+                obs = (to_now.get(e[2]),)
+        waited = any(x[1] == "block" and x[2] == "notempty" for x in sched.trace)
+        if waited:
+            res.probes["waited_for_pooled_connection"] += 1
+        out1 = sched.tasks[1].result
+        tag = f"request /fast (spec {spec} at {sc['placement']}, other thread held the only connection for {sc['hold']} s, waited={waited})"
+        if rt == 0:
+            pass
+        elif obs is None:
+            if not (out1 and out1[0] == "exc"):
+                res.bad("no_receive_observed", tag)
+        elif not _same(obs[0], rt):
+            res.bad("wrong_read_timeout", f"{tag}: socket had {obs[0]} while waiting for the response, reference min(read, total)={rt}")
+        elif waited:
+            res.probes["pool_wait_not_charged"] += 1
+        if out1 and out1[0] == "exc" and isinstance(out1[1], ReadTimeoutError) and rt is not None and sc["w"] <= rt:
+            res.bad("read_timeout_wrong_instant", f"{tag}: ReadTimeoutError although the response arrives after {sc['w']} s and the budget is {rt}")
+        for t in sched.tasks:
+            if t.error is not None and not isinstance(t.error, (S.SimDeadlock, S.TaskAbort)):
+                res.bad(f"task_crashed:{type(t.error).__name__}", f"{t.name}: {t.error!r:.160}")
+        res.info["switch_log"] = list(sched.switch_log)
+        res.faults["preemptions"] += sched.preemptions
+        res.digest = w.digest() + ":" + stable_hash(sched.trace)
+        res.trace = hash((repr(spec), sc["placement"], sc["hold"], sc["w"], sched.signature()))
+        res.nontrivial = waited
+        res.sim_s = w.now - W.VClock.START
+        res.steps = sched.steps
+        for t in sched.tasks:
+            t.result = t.error = t.fn = None
+        pool.close()
+    return res
 
 
 def mk(spec):
@@ -104,6 +239,8 @@ def run(sc: dict) -> Result:
     from urllib3.exceptions import ConnectTimeoutError, ReadTimeoutError
     from urllib3.util.timeout import Timeout
 
+    if sc.get("kind") == "contention":
+        return run_contention(sc)
     res = Result()
     urllib3 = H.u3()
     if "invalid" in sc:
@@ -312,6 +449,20 @@ def _same(a, b):
 
 def shrinks(sc):
     if "invalid" in sc:
+        return
+    if sc.get("kind") == "contention":
+        sch = sc["schedule"]
+        if "decisions" not in sch:
+            r = run(sc)
+            c = copy.deepcopy(sc)
+            c["schedule"] = {"decisions": [list(x) for x in r.info.get("switch_log", [])]}
+            yield c
+        else:
+            dec = sch["decisions"]
+            for i in range(len(dec)):
+                c = copy.deepcopy(sc)
+                c["schedule"] = {"decisions": dec[:i] + dec[i + 1 :]}
+                yield c
         return
     if len(sc["requests"]) > 1:
         for i in range(len(sc["requests"])):
